@@ -1,9 +1,7 @@
 package quic
 
-// [UQUIC] SetConnectionIDLimit was previously used to set a custom active connection ID
-// limit on the connIDManager. In quic-go v0.59.1, the connIDManager no longer stores
-// this limit — it is enforced via protocol.MaxActiveConnectionIDs and the peer's
-// transport parameters. This function is kept as a no-op for API compatibility;
-// the ActiveConnectionIDLimit value in the transport parameters already controls
-// how many connection IDs the server will send us.
-func (h *connIDManager) SetConnectionIDLimit(_ uint64) {}
+// [UQUIC] SetConnectionIDLimit records the active_connection_id_limit that a spec-driven
+// client advertised in its transport parameters, so that connIDManager.Add enforces the
+// advertised value rather than protocol.MaxActiveConnectionIDs: a peer that stays within
+// the advertised limit must not be answered with CONNECTION_ID_LIMIT_ERROR.
+func (h *connIDManager) SetConnectionIDLimit(limit uint64) { h.connIDLimit = limit }
